@@ -264,6 +264,17 @@ fn check_state(inst: &v1::Instance, init: &v1::Instance, rm: &RefModel, init_eva
             }
         }
     }
+    // an incomplete state that the initial instance rejects is rejected as a sample too (a constraint
+    // does not stop needing its variables by being relaxed)
+    for (st, base) in init_evals.iter().filter(|(_, b)| b.is_none()) {
+        let _ = base;
+        let mut one = v1::Samples::default();
+        one.add_sample(7, mk_state(st));
+        if let Ok(Ok(_)) = sdk(|| inst.evaluate_samples(&one).map_err(|e| format!("{e:#}"))) {
+            out.push(("sampled-evaluability-changed".into(), format!("evaluate_samples accepts the incomplete state {st:?}; the initial instance rejects it")));
+            break;
+        }
+    }
     out
 }
 
